@@ -436,7 +436,27 @@ func C11(r *vf.Run) {
 					}
 					if cls != "rom" || g.Intn(4) == 0 {
 						nv := live[idx] ^ byte(1+g.Intn(255))
-						busWrite(h.s, a, nv)
+						if g.Intn(3) == 0 && a>>16 != 0x7E {
+							// the write is made by the emulated CPU (STA long from work RAM), inside a RunUntil
+							// call, with or without a trace Logger attached
+							prog := []byte{0x8F, byte(a), byte(a >> 8), byte(a >> 16), 0xEA}
+							for j, x := range prog {
+								h.s.WRAM[0x1F00+j], h.wram[0x1F00+j] = x, x
+							}
+							c := &h.s.CPU
+							c.RK, c.PC, c.E, c.M, c.X, c.Stopped = 0x7E, 0x1F00, 0, 1, 1, false
+							c.RA, c.RAl, c.RAh = uint16(nv), nv, 0
+							var lg bytes.Buffer
+							h.s.Logger = nil
+							if g.Bool() {
+								h.s.Logger = &lg
+							}
+							vf.Try(func() { h.s.RunUntil(0x7E1F04, 50) })
+							h.s.Logger = nil
+							cells["long:write-by-cpu-in-rununtil"]++
+						} else {
+							busWrite(h.s, a, nv)
+						}
 						if live[idx] != nv {
 							r.Fail("long-lived-write-"+cls, fmt.Sprintf("after %d host Attach calls on one System: EaWrite($%06x,%02x) left %s[$%x]=%02x", n, a, nv, cls, idx, live[idx]), nil)
 							return false
